@@ -77,6 +77,8 @@ def run(ctx):
     rnd = random.Random(ctx.seed * 3 + 13)
     quick = ctx.tier == "quick"
     texts = []
+    big_shape = {}
+    big_texts = []     # hundreds of thousands of elements: implementation against the independent Python encoder only (the Lean voices take minutes on them)
     must_refuse = set()
     py_expected = {}
     # the real-chain transactions shipped with the repository
@@ -108,6 +110,16 @@ def run(ctx):
         tx = counted(a, b, c)
         h = ser_tx(tx).hex()
         texts.append(h)
+        py_expected[h] = tx_line_py(tx)
+    # vectors longer than one allocation batch of the deserialiser (5,000,000 bytes / element size: 208,333 witness items, 125,000
+    # outputs, 48,076 inputs): read in several batches, nothing lost at the seams
+    big = [(1, 1, 1, 208333), (1, 1, 1, 208334), (2, 2, 1, 208334)] + ([] if quick else [(1, 0, 125000, 1), (1, 0, 125001, 1), (48076, 0, 1, 1), (48077, 1, 1, 1), (1, 1, 1, 416667)])
+    for (a, b, c, items) in big:
+        tx = counted(a, b, c, items)
+        if items > 1000:      # empty witness items keep the text short
+            tx = (tx[0], [(i[0], i[1], i[2], [b""] * len(i[3]), i[4]) for i in tx[1]], tx[2], tx[3])
+        h = ser_tx(tx).hex()
+        big_texts.append(h); big_shape[h] = {"inputs": a, "inputs_with_witness": b, "outputs": c, "witness_items_each": items, "items": "empty" if items > 1000 else "one byte"}
         py_expected[h] = tx_line_py(tx)
     for items in (252, 253, 256):
         tx = counted(2, 1, 1, items)
@@ -167,6 +179,13 @@ def run(ctx):
         if t in py_expected and i != py_expected[t]:
             ctx.violation(l, {"why": "decoded fields / txid / re-encoding differ from the independent encoder", "impl": i, "python": py_expected[t]})
     ctx.count("python-third-voice", len(py_expected))
+    bl = ["TXPARSE " + t.encode().hex() for t in big_texts]
+    for t, l, i in zip(big_texts, bl, ctx.harness_sharded(bl)):
+        ctx.count("txparse-batches", 1)
+        ctx.nontrivial.add("big:%d" % len(t))
+        if i != py_expected[t]:
+            ctx.violation(l[:200] + "...", {"why": "a transaction with a vector longer than one deserialiser batch is not decoded / re-encoded / identified as the independent encoder says",
+                                            "length_hex": len(t), "shape (checks/c13.py counted())": big_shape[t], "impl": i[:300], "python": py_expected[t][:300]})
     for t, l, i in zip(texts, lines, impl):
         if t in must_refuse and i.startswith("OK"):
             ctx.violation(l, {"why": "a transaction text with a dangling hex digit / trailing junk behind a complete encoding was accepted", "impl": i, "text_tail": t[-12:]})
